@@ -112,7 +112,8 @@ def kin_ref(k, s, eps, inc, off, normed):
 
 def run_kin(rec, case):
     rng = rng_case(case)
-    k = gen_kin(rng)
+    # "a covariance of any dimension": every 40th case is an IFU map with very many bins (det C leaves the binary64 range, ln det C does not)
+    k = gen_kin(rng, n=int(rng.choice([120, 180, 260])), realistic=True) if case[2] % 40 == 7 else gen_kin(rng)
     n = k["n"]
     skind = str(rng.choice(["none", "array", "scalar", "ones"]))
     s = {"none": None, "array": rng.uniform(0.6, 1.5, n), "scalar": float(rng.uniform(0.6, 1.5)), "ones": np.ones(n)}[skind]
